@@ -131,7 +131,20 @@ STMT_CORES.update({
     "generic_tuple_negation_unused_call": ("gn(__lit1, __lit2)", GN, spec_gn),
     "generic_tuple_negation_stored": ("nn := gn(__lit1, __lit2)", GN, spec_gn),
 })
-GENERIC_LITS = {"generic_tuple_result_unused_call": ["int", "float", "str"], "generic_tuple_result_in_tuple_literal": ["int", "float", "str"], "generic_tuple_result_trailing_in_closure": ["int", "str"],
+def spec_same_plus(S, I): return z3.Not(z3.Or([z3.And(I("lit1", k), I("lit2", k)) for k in ("int", "float", "str") if k in S["lit1"][1]]))
+STMT_CORES.update({
+    # a constraint on a tuple that is a local of the generic function (not part of its signature)
+    "generic_tuple_local_not_returned": ("gl(__lit1)", "gl :: fn a do\n    x :: (a, 1) - (a, 1)\nend\n", lambda S, I: z3.Not(z3.Or(I("lit1", "int"), I("lit1", "float")))),
+    # a constraint between the parameter of an inner closure and a parameter of the enclosing generic function
+    "generic_inner_closure_and_outer_parameter": ("go(__lit1)", "go :: fn a do\n    gi :: fn b -> a + b end\n    gi(__lit2)\nend\n", spec_same_plus),
+    # an operand reached through `self` in a function stored in a blob field
+    "operand_through_self": ("sa :: Sb { x: 1, f: fn do\n    y :: self.x + __lit1\nend }\nsa.f()", "Sb :: blob {\n    x: int,\n    f: fn -> void,\n}\n", lambda S, I: z3.Not(I("lit1", "int"))),
+    # void stored inside a composite literal
+    "void_inside_tuple_literal": ("vt :: (__lit1, 1)", "", spec_void_var),
+    "void_inside_list_literal": ("vl :: [__lit1]", "", spec_void_var),
+})
+GENERIC_LITS = {"generic_tuple_local_not_returned": ["int", "float", "str", "bool"], "generic_inner_closure_and_outer_parameter": ["int", "str", "bool"], "operand_through_self": ["int", "str", "float"],
+                "void_inside_tuple_literal": ["int", "str", "void"], "void_inside_list_literal": ["int", "str", "void"], "generic_tuple_result_unused_call": ["int", "float", "str"], "generic_tuple_result_in_tuple_literal": ["int", "float", "str"], "generic_tuple_result_trailing_in_closure": ["int", "str"],
                 "generic_tuple_negation_unused_call": ["int", "float", "str", "bool"], "generic_tuple_negation_stored": ["int", "float", "str", "bool"], "generic_binop_args": ["int", "str", "bool", "float"], "generic_binop_via_variables": ["int", "str", "bool"], "tuple_elementwise": ["tuple", "tuple_str", "int"]}
 
 
@@ -237,7 +250,8 @@ def run(tier):
         if r["status"] != "ok":
             fnd.undecided("%s: %s %s" % (r["name"], r["status"], r.get("why", "")[:300])); continue
         for k in tot: tot[k] += r.get(k, 0)
-        if r["accepted"] == 0 or r["rejected"] == 0: vacuous.append(r["name"])
+        # nothing accepted = nothing was asserted; nothing rejected is only suspicious when no accepted mismatch was found either (those are reported below)
+        if r["accepted"] == 0 or (r["rejected"] == 0 and not r["cex"]): vacuous.append(r["name"])
         for c in r["cex"]:
             if c["kind"] == "accepted_mismatch":
                 ok, out = native_accepts(art["sylt"], c["concrete"]); replayed += 1
